@@ -246,7 +246,7 @@ class Segment:
             handler = getattr(self, "op_" + op["op"])
             try:
                 handler(op, rec)
-                if op["op"] in ("WRITE", "READ", "EXEC", "RANDATTR"):
+                if op["op"] in ("WRITE", "READ", "EXEC", "RANDATTR", "CONC"):
                     self.lib_ops += 1
                     self.last_lib_op = "%s:%s" % (op["op"], op.get("fmt") or op.get("name") or
                                                   "GenerateRandomAttribute")
@@ -275,7 +275,8 @@ class Segment:
             if now != entry["flat"]:
                 touched = op.get("m") == handle or op.get("as") == handle
                 prop = {"WRITE": "C12", "READ": "C02", "EXEC": "C19", "METRICS": "C19",
-                        "RANDATTR": "C19"}.get(op["op"], "C19")
+                        "RANDATTR": "C19",
+                        "CONC": self.job.get("prop") or "C12"}.get(op["op"], "C19")
                 self.fail(prop, "frame.other_model_changed" if not touched else
                           "frame.model_changed", "%s:%s" % (op["op"], op.get("fmt") or
                                                             op.get("name") or ""),
@@ -1079,6 +1080,165 @@ class Segment:
                               rec["exc"], "reused" if used else "fresh"), tags)
             except Exception:  # noqa: BLE001
                 pass
+
+    # ---------------------------------------------------------------- caller threads
+    def conc_subop(self, sub, slot):
+        """One library call of a lane.  Raw results go to `slot`; nothing is evaluated here
+        (evaluation runs library code and must stay outside the scheduled region)."""
+        kind = sub["k"]
+        try:
+            if kind == "W":
+                entry = self.models[sub["m"]]
+                wcls = self.cls(WRITERS, sub["fmt"])
+                slot["ret"] = wcls(self.abspath(sub["path"]), entry["obj"]).transform()
+            elif kind == "R":
+                rcls = self.cls(READERS, sub["fmt"])
+                slot["model"] = rcls(self.abspath(sub["path"])).transform()
+            else:
+                entry = self.models[sub["m"]]
+                mod = importlib.import_module("flamapy.metamodels.fm_metamodel.operations")
+                obj = getattr(mod, sub["name"])()
+                if sub["name"] == "FMFeatureAncestors":
+                    obj.set_feature(entry["obj"].get_feature_by_name(sub["feature"]))
+                if sub["name"] == "FMMetrics" and sub.get("filter") is not None:
+                    obj.only_these_metrics(list(sub["filter"]))
+                slot["result"] = obj.execute(entry["obj"]).get_result()
+            slot["o"] = "ok"
+        except Exception as err:  # noqa: BLE001
+            slot["o"] = "raised"
+            slot["exc"] = type(err).__name__
+
+    def conc_eval(self, sub, slot):
+        """Canonical, comparable form of what a lane's call produced."""
+        out = {"o": slot.get("o", "not run")}
+        if out["o"] != "ok":
+            out["exc"] = slot.get("exc")
+            return out
+        try:
+            if sub["k"] == "W":
+                ret = slot.get("ret")
+                out["ret"] = sha(ret if isinstance(ret, (str, bytes)) else repr(ret))
+                data = self.read_bytes(sub["path"])
+                out["file"] = None if data is None else sha(data)
+            elif sub["k"] == "R":
+                out["model"] = sha(rm.cj(rm.flat(self.bridge.observe(slot["model"]))))
+                out["wf"] = sorted(str(b)[:80] for b in self.bridge.wellformed(slot["model"]))[:3]
+            else:
+                out["result"] = sha(rm.cj(self.canon(slot["result"], False)))
+        except Exception as err:  # noqa: BLE001
+            out["eval"] = "raised " + type(err).__name__
+        return out
+
+    def op_CONC(self, op, rec):
+        """Several caller threads, each making its own calls on its own objects, interleaved by
+        the plan's schedule.  Oracle: every call gives what the same call gives when the lanes
+        run one after the other in the same interpreter (the lanes share no object except, in
+        `share` plans, a model that is only read)."""
+        from . import sched
+        lanes = op["lanes"]
+        for lane in lanes:
+            for sub in lane:
+                if "m" in sub and (sub["m"] not in self.models or
+                                   self.models[sub["m"]].get("tainted")):
+                    rec["outcome"] = "skipped"
+                    return
+                if sub["k"] == "R" and not sub.get("own") and \
+                        self.read_bytes(sub["path"]) is None:
+                    rec["outcome"] = "skipped"
+                    return
+                if sub["k"] == "X" and sub["name"] == "FMFeatureAncestors" and \
+                        self.models[sub["m"]]["obj"].get_feature_by_name(sub["feature"]) is None:
+                    rec["outcome"] = "skipped"
+                    return
+        pkg = os.path.dirname(os.path.dirname(sys.modules[
+            "flamapy.metamodels.fm_metamodel.models"].__file__))
+
+        def sequential():
+            got = []
+            for lane in lanes:
+                row = []
+                for sub in lane:
+                    slot = {}
+                    self.conc_subop(sub, slot)
+                    row.append(self.conc_eval(sub, slot))
+                got.append(row)
+            return got
+
+        def concurrent():
+            slots = [[{} for _ in lane] for lane in lanes]
+
+            def body(idx):
+                def run():
+                    for sub, slot in zip(lanes[idx], slots[idx]):
+                        self.conc_subop(sub, slot)
+                return run
+            core = os.path.dirname(sys.modules["flamapy.core"].__file__)
+            sch = sched.Scheduler(pkg, op.get("switches", []), op.get("first", 0),
+                                  transparent=[core] if not core.startswith(pkg) else [])
+            finished = sch.run([body(i) for i in range(len(lanes))])
+            got = [[self.conc_eval(sub, slot) for sub, slot in zip(lane, row)]
+                   for lane, row in zip(lanes, slots)]
+            return sch, finished, got
+
+        self.disk.begin_op(None)
+        if op.get("order", "seq_first") == "seq_first":
+            seq = sequential()
+            sch, finished, conc = concurrent()
+        else:
+            sch, finished, conc = concurrent()
+            seq = sequential()
+        self.disk.end_op()
+        self.probe("conc_ops")
+        self.probe("conc_lane_calls", sum(len(lane) for lane in lanes))
+        self.probe("conc_steps", sch.steps)
+        self.probe("conc_switches_made", len(sch.log))
+        if sch.log:
+            self.probe("fault_fired.thread_preemption", len(sch.log))
+        if sch.deferred:
+            self.probe("conc_switch_deferred_inside_dependency", sch.deferred)
+        rec["sched"] = sha(rm.cj([list(x) for x in sch.log]))
+        rec["switches"] = len(sch.log)
+        if not finished or sch.errors:
+            self.probe("conc_schedule_stalled")
+            rec["outcome"] = "stalled"
+            return
+        if sch.log:
+            self.probe("conc_ops_with_interleaving")
+        rec["outcome"] = "ok"
+        shared = op.get("share", False)
+        for li, lane in enumerate(lanes):
+            for si, sub in enumerate(lane):
+                a, b = seq[li][si], conc[li][si]
+                if a == b:
+                    continue
+                kind = sub["k"]
+                fmt = sub.get("fmt") or sub.get("name")
+                where = "; ".join("step %d lane %d->%d at %s" % tuple(x) for x in sch.log[:6])
+                detail = "lane %d call %d (%s %s): alone %s, interleaved %s [%s]" % (
+                    li, si, kind, fmt, rm.cj(a)[:160], rm.cj(b)[:160], where)
+                tags = ["conc.lanes", "hist.threads"] + (["conc.shared_model"] if shared else [])
+                if "m" in sub:
+                    tags += self.model_tags(sub["m"])
+                if kind == "W":
+                    props = ["C12"] + ([RT_PROP[fmt]] if fmt in RT_PROP else [])
+                    site = self.cls(WRITERS, fmt).__name__ + ".transform"
+                    check = "conc.write_differs"
+                elif kind == "R":
+                    props = [p for p in (RT_PROP.get(fmt), NEG_PROP.get(fmt)) if p]
+                    site = self.cls(READERS, fmt).__name__ + ".transform"
+                    check = "conc.read_differs"
+                    if a.get("o") == "raised" and b.get("o") == "ok":
+                        check = "conc.invalid_accepted"
+                        props = [NEG_PROP[fmt]]
+                    if a.get("o") == "ok" and b.get("o") == "ok" and not a.get("wf") and \
+                            b.get("wf"):
+                        props.append("C02")
+                else:
+                    props = ["C19"] + (["C17"] if fmt == "FMMetrics" else [])
+                    site = fmt + ".execute"
+                    check = "conc.result_differs"
+                for prop in props:
+                    self.fail(prop, check, site, detail, tags)
 
     def check_held_results(self, site, tags):
         """Results handed out by earlier executions and still held by the session must not be
